@@ -795,6 +795,18 @@ def m_into(ctx):
         src = (type_params(trait) or [None])[0] if trait else None
     if src is not None and norm_ty(src) == norm_ty(dst):
         return ctx.ret(copy_node(ctx.args[0]))
+    # lossless primitive conversions of core: bool -> integer (0 / 1), integer -> wider integer of the same or a
+    # wider signed kind (zero- / sign-extension)
+    ks, kd = scalar_kind(norm_ty(src) or "") if src else None, scalar_kind(norm_ty(dst) or "") if dst else None
+    if ks is not None and kd is not None and kd[0] == "bv":
+        t = eng.scalar(ctx.args[0], norm_ty(src))
+        if ks[0] == "bool":
+            w = kd[1]
+            return ctx.ret(mk_scalar(z3.If(t, z3.BitVecVal(1, w), z3.BitVecVal(0, w)), norm_ty(dst)))
+        if ks[0] == "bv" and kd[1] >= ks[1] and (kd[1] > ks[1] or kd[2] == ks[2]) and (not ks[2] or kd[2]):
+            ext = kd[1] - ks[1]
+            r = t if ext == 0 else (z3.SignExt(ext, t) if ks[2] else z3.ZeroExt(ext, t))
+            return ctx.ret(mk_scalar(r, norm_ty(dst)))
     target = find_from_impl(eng, src, dst) if src else None
     if target is not None:
         dst_node = eng.place(ctx.st, ctx.frame, ctx.dest)
